@@ -180,11 +180,15 @@ class EncodeHarness(Harness):
     max_paths = 4000
     IMM_BOUND = 1 << 33
 
-    def __init__(self, arch, idx, cls, mn, ks):
+    def __init__(self, arch, idx, cls, mn, ks, wide=0):
         self.arch, self.idx, self.cls, self.mn, self.ks = arch, idx, cls, mn, ks
         self.spec = SPEC[(mn, ks)]
-        self.params = dict(arch=arch, idx=idx, cls=cls, mn=mn, ks=ks)
+        self.wide = wide            # thorough tier: immediates up to 2**48, label distance 16 x the documented reach
+        self.params = dict(arch=arch, idx=idx, cls=cls, mn=mn, ks=ks, wide=wide)
         self.name = f"{self.PREFIX}[{arch}:{cls}#{idx}:{mn}]"
+        if wide:
+            self.IMM_BOUND = 1 << 48
+            self.W = 96
 
     def modules(self):
         names = ["ppci.utils.bitfun", "ppci.arch.token", "ppci.arch.encoding", "ppci.arch.isa", "ppci.arch.registers",
@@ -210,8 +214,9 @@ class EncodeHarness(Harness):
                 d[f"i{k}"] = mk.int(f"i{k}", -self.IMM_BOUND, self.IMM_BOUND)
             elif kd == "s" and self.spec["label"] == "pcrel":
                 lo, hi, mult = self.spec["imm"][:3]
-                # distance: twice the documented reach; P: address of the instruction
-                d["off"] = mk.int("off", 2 * lo, 2 * hi + 2)
+                # distance: twice (thorough: 16 x) the documented reach; P: address of the instruction
+                f = 16 if self.wide else 2
+                d["off"] = mk.int("off", f * lo, f * hi + 2)
                 d["P"] = mk.int("P", 0, (1 << 32) - 2)
                 mk.assume(d["off"] % 2 == 0)
                 mk.assume(d["P"] % 2 == 0)
